@@ -1,11 +1,11 @@
 SPECIFICATION Spec
 CONSTANTS
   GlobCreds <- GCMain
-  CredClasses = {"none","both","user","same"}
+  CredClasses = {"none","both","same"}
   StartNrs = {0,1}
   ETsbds = {0,4}
   DefTsbds = {90}
-  ERaws = {0,2}
+  ERaws = {0}
   DefRaws = {0}
   Ignores = {FALSE,TRUE}
   IgnTracks = {FALSE}
@@ -14,7 +14,7 @@ CONSTANTS
   Prefixes = {"/upload"}
   Focus = {"A","B","U"}
   Flips = {FALSE}
-  Rounds = "full"
+  Rounds = "short"
   DSec = 2
 INVARIANT InvEffFunction
 INVARIANT InvIsolation
